@@ -44,6 +44,11 @@ def cases(tier, seed, prep=None):
         who = "ab"[i % 2]
         out.append({"kind": "random", "seed": seed * 1000003 + 65000 + i, "min_msgs": 70, "max_msgs": 100, "max_size": 30, "ndrops": [0, 0, 1],
                     "cfg_over": {"api_" + who: "deferred", "get_" + who: "never"}, "backlog": who.upper()})
+    # an application whose first set_code() is malformed (KeyFormatError, caught) and which then sets a good one - with
+    # messages already handed to send_message() before either
+    for i in range(60 if tier == "quick" else 2000):
+        out.append({"kind": "random", "seed": seed * 1000003 + 67000 + i, "min_msgs": 3, "ndrops": [0, 0, 1],
+                    "cfg_over": {"b_code": "set", "bad_first_b": ["7-purple sausages", " 7-x", "7-x y", "", "x-y", "7 -a"][i % 6]}})
     bases = range(3) if tier == "quick" else range(24)
     stride = 4 if tier == "quick" else 1
     for b in bases:
@@ -125,7 +130,9 @@ def run_case(spec):
                      "gets_cancelled_from_inside_a_callback": getattr(drv.a, "cancelled_in_callback", 0) + getattr(drv.b, "cancelled_in_callback", 0),
                      "dilate_records_rx": sum(1 for app in (drv.a, drv.b) for (_, m) in app.inbound
                                               if m.get("type") == "message" and str(m.get("phase", "")).startswith("dilate-")),
-                     "notrans_seen": len(MON.notrans), "log_errors_seen": len(MON.errors)},
+                     "notrans_seen": len(MON.notrans), "log_errors_seen": len(MON.errors),
+                     "malformed_set_code_first_" + str(drv.bad_first_outcome): int(bool(cfg.get("bad_first_b"))),
+                     "sends_before_a_malformed_set_code": len(drv.b.sent_before_code) if cfg.get("bad_first_b") and hasattr(drv.b, "sent_before_code") else 0},
         "sample": {"spec": spec, "cfg": {k: v for k, v in cfg.items() if not k.startswith("plan")},
                    "sent_A": len(drv.a.sent), "sent_B": len(drv.b.sent),
                    "A_events": [e[1] for e in drv.a.ev], "B_events": [e[1] for e in drv.b.ev],
